@@ -1393,7 +1393,10 @@ def repair_phase2(case, impl_lines):
     k = 0
     for l in impl_lines:
         t = l.split()
-        if len(t) >= 6 and t[1] == "RP":
+        if len(t) >= 3 and t[1] == "RPBIG":
+            ops.append(["rpbigchk", t[2]])
+            k += 1
+        elif len(t) >= 6 and t[1] == "RP":
             src = case[5][k]
             d = dict(x.split("=", 1) for x in t[2:])
             ops.append(["rpchk", src[1], src[2], d.get("t", "0"), d.get("bits", "0"), d.get("rules", "-"), d.get("seq", "-")])
@@ -1748,7 +1751,12 @@ def c20_streams(tier, rng):
         return c01_ops(kind, pv, S, r)
     dcases = kind_cases(tier, rng, ["RPFC", "RPHTFC", "RPDAC", "HASHRPF", "HASHRPDAC"], fn,
                         battery=small_battery(tier, rng, 30 if tier == "thorough" else 10), name="g")
+    # a pair table that has to grow: > 98 304 distinct pairs alive at once (about a million symbols over 60..75
+    # letters); expansion checked by the harness itself (`rpbig`), the specification says nothing differs
+    bigc = [("rpbig%d" % a, "repair", "-", {}, [], [["rpbig", rng.fork("rpbig%d" % a).below(1 << 30), 150000, a]])
+            for a in ((60, 75, 50) if tier == "thorough" else (75,))]
     return [StreamSet("grammars", "asan", cases, phase2=repair_phase2, timeout=60), StreamSet("users", "asan", dcases),
+            StreamSet("pair-table-growth", "asan", bigc, phase2=repair_phase2, timeout=600),
             StreamSet("rpdac-layer", "asan", rpdac_cases(tier, rng, 40 if tier == "thorough" else 12), phase2=rpdac_phase2, timeout=60)]
 
 
